@@ -200,4 +200,44 @@ def cecStep (W : List (List Rat)) (c : Rat) (x : List Rat) : List Rat := (matVec
 /-- one step of the HEC iteration; `r` stands for `np.power(apply(HG, x, g), 1/m)` -/
 def hecNormalize (r : List Rat) : List Rat := r.map fun a => sgn (r.getD 0 0) * a / l1 r
 
+/-! ### the two loops (control only, generic in the loop body so that the driver can run the SAME control on a
+recorded float trajectory and the theorems can instantiate the body with `cecStep` / the HEC step) -/
+
+/-- the test `res > tol` of `power_method`; `none` is the initial `np.inf` -/
+def pmGoOn (res : Option Rat) (tol : Rat) : Bool :=
+  match res with
+  | none => true
+  | some r => decide (tol < r)
+
+/-- `while res > tol and k < max_iter: (x, res) = body x; k += 1` of `power_method`, `fuel = max_iter - k`;
+returns the final `x` and the number of passes made from here -/
+def pmLoop {X : Type} (body : X → X × Rat) (tol : Rat) : Nat → Option Rat → X → X × Nat
+  | 0, _, x => (x, 0)
+  | fuel + 1, res, x =>
+    if pmGoOn res tol then
+      let p := body x
+      let r := pmLoop body tol fuel (some p.2) p.1
+      (r.1, r.2 + 1)
+    else (x, 0)
+
+/-- `power_method(W, max_iter, tol)` from the normalised start `x`: the body is one step, `nrm` stands for
+`np.linalg.norm` (irrational, a parameter) -/
+def pmBody (nrm : List Rat → Rat) (W : List (List Rat)) (x : List Rat) : List Rat × Rat :=
+  let x' := cecStep W (nrm (matVec W x)) x
+  (x', nrm (vsub x x'))
+
+def powerMethod (nrm : List Rat → Rat) (W : List (List Rat)) (maxIter : Nat) (tol : Rat) (x : List Rat) : List Rat × Nat :=
+  pmLoop (pmBody nrm W) tol maxIter none x
+
+/-- `for iter in range(max_iter): new_x = step x; if dist x new_x <= tol: break; x = new_x` of `HEC_centrality`:
+returns the final `x` (the iterate the test was applied to when it broke), the number of passes and whether the
+loop was left by the `break` (otherwise "Iteration did not converge!" is printed) -/
+def hecLoop {X : Type} (step : X → X) (dist : X → X → Rat) (tol : Rat) : Nat → X → X × Nat × Bool
+  | 0, x => (x, 0, false)
+  | fuel + 1, x =>
+    if dist x (step x) ≤ tol then (x, 1, true)
+    else
+      let r := hecLoop step dist tol fuel (step x)
+      (r.1, r.2.1 + 1, r.2.2)
+
 end C20
